@@ -220,7 +220,8 @@ def sizeToPoolId (cfg : Config) (size : Nat) : Nat :=
 
 def bitVectorBytes (areaSize : Nat) : Nat := (areaSize + 63) / 64 * 8
 
-/-- `JitAllocator_calculate_ideal_block_size` (sizes far below 2^64: the overflow exits are not modelled) -/
+/-- `JitAllocator_calculate_ideal_block_size` (unbounded arithmetic; Lemmas/JitAllocWord.lean `ideal_exact` + Lemmas/JitAllocWordInv.lean prove the
+`size_t` computation with its overflow exits equal to it in every reachable state: the exits are never taken) -/
 def idealBlockSize (a : Alloc) (p : Nat) (size : Nat) : Nat :=
   let bs := match (a.poolBlocks p).getLast? with
     | some l => l.blockSize
